@@ -73,6 +73,8 @@ def c16_plan(tier, seed, known):
     jobs = split_jobs("e1store", "C16", seed, n_hist, 3, 4, "default", known, tier)
     # L2: sled's failpoints are process-global, so each process runs its simulations one at a time
     jobs += split_jobs("e1store", "C16", seed, n_l2, 4, 1, "default", known, tier, extra=["--l2"], base=50_000_000)
+    # crash without goodbye: the history in a child process that _exit()s at storage write k (every k it reaches)
+    jobs += split_jobs("e1store", "C16", seed, 600 if thorough else 48, 2, 8, "default", known, tier, extra=["--crash"], base=60_000_000)
     # reopen while the storage lock is still held (simulated clock): acknowledged data must survive
     jobs += split_jobs("e5d", "C16", seed, 400 if thorough else 80, 1, 1, "default", known, tier, base=70_000_000)
     return {
@@ -85,7 +87,10 @@ def c16_plan(tier, seed, known):
                  "enumerated) and per kind {transient, sticky}; one evaluation = one such run; non-trivial and distinct = the armed failure "
                  "fired, keyed by (history digest, k, kind). L2: the same histories with sled's own 'buffer write' failpoint armed after a "
                  "seeded step (a real sled::Error reaches the adapter), oracle: flushed data survives reopen, unflushed data is old-or-new never "
-                 "garbage, Ok calls are readable on the same instance, reopening works."),
+                 "garbage, Ok calls are readable on the same instance, reopening works. Crash: the same histories in a child process that exits "
+                 "(no drop, no flush) from the storage hook at write k, for every k the history reaches; every step the child acknowledged is logged "
+                 "(synced) before the next one; the parent reopens: data of the last acknowledged flush is present, anything else is old or a "
+                 "later-written value. Contended reopen: re-creation while the simulator holds the storage lock until a simulated time."),
         "real": REAL_TREE + ["utils::pm_tree::SledDB adapter (L1: hook returns the adapter's own error value before sled is called; L2: real sled errors)"],
         "stub": ["the storage failure source (L1: guarded hook in SledDB::put/put_batch/close; L2: sled's failpoints feature)", "the caller"],
         "assumptions": ASSUME_TREE + [
